@@ -466,6 +466,12 @@ def Value.hasNeg1 : Value → Bool
   | .scalar v => v == -1
   | .array vs => vs.contains (-1)
 
+/-- `self.setdefault(key, np.zeros(n))`: the stored array of a property, zeros for a new one -/
+def propOld (props : List (String × (Nat → Int))) (name : String) : Nat → Int :=
+  match props.lookup name with
+  | some a => a
+  | none => fun _ => 0
+
 inductive Op
   | select (v : Nat) (k : Key)                    -- views.append(views[v][k])
   | setPhaseId (v : Nat) (val : Value)            -- views[v].phase_id = val
@@ -501,7 +507,7 @@ def step (s : Sys) : Op → Sys × Option XErr
     | none => (s, some .badView)
     | some m =>
       -- `array = self.setdefault(key, np.zeros(n))` happens before the assignment can fail
-      let old : Nat → Int := match s.props.lookup name with | some a => a | none => fun _ => 0
+      let old : Nat → Int := propOld s.props name
       let props0 := if (s.props.lookup name).isSome then s.props else s.props ++ [(name, old)]
       match assign (ids s.n m) old val with
       | .error e => ({ s with props := props0 }, some e)
